@@ -277,17 +277,56 @@ pub fn c15(cx: &RunCtx) {
         // every function name once, at depth 1 over a small operand list
         let mut st = Stats::default();
         let ops = ["0.5", "2", "3", "0.25", "7", "10", "1", "(-0.5)", "(-2)", "20", "1.5"];
+        // whole operands on which an Integer fast path and the double computation may part: every power of two
+        // and its neighbours, powers of ten, of three, squares, cubes, factorials; a sub-list for pairs
+        let mut whole: Vec<String> = Vec::new();
+        for k in 0..=52u32 {
+            for d in [-1i64, 0, 1] {
+                let v = (1i64 << k) + d;
+                if v >= 0 {
+                    whole.push(v.to_string());
+                }
+            }
+        }
+        for k in 1..=15u32 {
+            whole.push(10i64.pow(k).to_string());
+        }
+        for k in 1..=33u32 {
+            whole.push(3i64.pow(k).to_string());
+        }
+        for b in [5i64, 6, 7, 11, 12, 13, 100, 1000, 1024, 46340, 46341, 94906265, 94906266, 208063, 208064] {
+            whole.push((b * b).to_string());
+            if b < 209000 {
+                whole.push((b * b * b).to_string());
+            }
+        }
+        let mut fct = 1i64;
+        for k in 1..=18i64 {
+            fct *= k;
+            whole.push(fct.to_string());
+        }
+        for v in whole.clone() {
+            whole.push(format!("(-{})", v));
+        }
+        whole.sort();
+        whole.dedup();
+        let pair_list = ["2", "3", "4", "8", "9", "10", "16", "27", "32", "64", "81", "100", "125", "243", "256", "1000", "1024", "0.5", "(-2)", "(-3)", "536870912", "2147483648", "1/2", "4294967296", "0"];
         let mut seen: Vec<&str> = vec![];
         for (name, f) in refmodel::vocab::func_names(refmodel::vocab::Ev::F64) {
             if seen.contains(name) {
                 continue;
             }
             seen.push(name);
-            let inputs: Vec<String> = match f.arity() {
+            let mut inputs: Vec<String> = match f.arity() {
                 refmodel::vocab::Arity::Fixed(1) => ops.iter().map(|x| format!("{}({})", name, x)).collect(),
                 refmodel::vocab::Arity::Fixed(_) => ops.iter().flat_map(|x| ops.iter().map(move |y| format!("{}({},{})", name, x, y))).collect(),
                 _ => ops.iter().flat_map(|x| ops.iter().map(move |y| format!("{}({},{},3)", name, x, y))).collect(),
             };
+            match f.arity() {
+                refmodel::vocab::Arity::Fixed(1) => inputs.extend(whole.iter().map(|x| format!("{}({})", name, x))),
+                refmodel::vocab::Arity::Fixed(_) => inputs.extend(pair_list.iter().flat_map(|x| pair_list.iter().map(move |y| format!("{}({},{})", name, x, y)))),
+                _ => inputs.extend(pair_list.iter().flat_map(|x| pair_list.iter().map(move |y| format!("{}({},{})", name, x, y)))),
+            }
             for s in inputs {
                 let lx = refmodel::lex::lex(refmodel::vocab::Ev::F64, &s);
                 let parsed = refmodel::parse::parse_lexed(refmodel::vocab::Ev::F64, &lx);
